@@ -611,7 +611,14 @@ func (ii *InstInfo) addEncodeContracts(p *Program, cs *ContractSet, prop string,
 			}
 		}
 	}
-	for f, n := range typedefFn {
+	// deterministic discovery order
+	var tdOrder []*ssa.Function
+	for f := range typedefFn {
+		tdOrder = append(tdOrder, f)
+	}
+	sort.Slice(tdOrder, func(i, j int) bool { return tdOrder[i].String() < tdOrder[j].String() })
+	for _, f := range tdOrder {
+		n := typedefFn[f]
 		scan(f, []eqNode{{d: n.d, gt: n.gt.Underlying()}})
 	}
 	for len(queue) > 0 {
